@@ -453,7 +453,49 @@ func (x *Exec) forStmt(st *State, s *ast.ForStmt, label string) Flow {
 	if s.Cond != nil {
 		nodes = append(nodes, s.Cond)
 	}
+	x.autoDec = x.autoMeasure(s)
 	return x.cutLoop(st, ls, id, label, nodes, cond, body, s.Pos(), nil)
+}
+
+// autoMeasure recognises counting loops (i++ with i < E, i-- with i >= E or
+// i > E) and returns their termination measure.
+func (x *Exec) autoMeasure(s *ast.ForStmt) func(*State) Term {
+	inc, ok := s.Post.(*ast.IncDecStmt)
+	if !ok || s.Cond == nil {
+		return nil
+	}
+	iv, ok := inc.X.(*ast.Ident)
+	if !ok {
+		return nil
+	}
+	be, ok := s.Cond.(*ast.BinaryExpr)
+	if !ok {
+		return nil
+	}
+	lhs, ok := be.X.(*ast.Ident)
+	if !ok || lhs.Name != iv.Name {
+		return nil
+	}
+	up := inc.Tok == token.INC && (be.Op == token.LSS || be.Op == token.LEQ)
+	down := inc.Tok == token.DEC && (be.Op == token.GEQ || be.Op == token.GTR)
+	if !up && !down {
+		return nil
+	}
+	return func(st *State) Term {
+		i := x.expr(st.clone(), iv)
+		e := x.expr(st.clone(), be.Y)
+		ii, ok := intInfo(i.Ty)
+		if !ok {
+			return Term{}
+		}
+		it := x.vc.convInt(i.T, ii, x.vc.idxInfo())
+		ei, _ := intInfo(e.Ty)
+		et := x.vc.convInt(e.T, ei, x.vc.idxInfo())
+		if up {
+			return x.vc.isub(et, it)
+		}
+		return x.vc.isub(it, et)
+	}
 }
 
 // cutLoop implements the invariant cut: assert on entry, havoc, assume
@@ -583,8 +625,16 @@ func (x *Exec) cutLoop(st *State, ls *LoopSpec, id, label string, nodes []ast.No
 		sB := h.clone()
 		sB.assume(c)
 		var dec0 Term
+		autoDec := x.autoDec
+		x.autoDec = nil
 		if ls.Decreases != nil {
 			dec0 = mkEnv(sB).eval(ls.Decreases.Expr).T
+			autoDec = nil
+		} else if autoDec != nil {
+			dec0 = autoDec(sB)
+			if dec0.S == "" {
+				autoDec = nil
+			}
 		}
 		f := body(sB)
 		exits = append(exits, f.breaks...)
@@ -617,6 +667,12 @@ func (x *Exec) cutLoop(st *State, ls *LoopSpec, id, label string, nodes []ast.No
 					}
 					x.obligeNamed(f.next.clone(), name, "inv-step", g, pos, inv.Text)
 				}
+			}
+			if autoDec != nil {
+				dec1 := autoDec(f.next)
+				ii := x.vc.idxInfo()
+				g := tAnd(x.vc.compare(token.LSS, dec1, dec0, ii), x.vc.compare(token.GEQ, dec0, intLit(x.vc.mode, ii, bigInt(-1)), ii))
+				x.obligeNamed(f.next.clone(), fmt.Sprintf("decreases[loop%s]", id), "decreases", g, pos, "counting loop terminates (automatic measure)")
 			}
 			if ls.Decreases != nil {
 				dec1 := mkEnv(f.next).eval(ls.Decreases.Expr).T
